@@ -113,8 +113,8 @@ func TestC07Random(t *testing.T) {
 		switch rapid.SampledFrom([]int{0, 0, 0, 1, 1, 1, 2, 3, 4}).Draw(t, "k") {
 		case 0:
 			id := rapid.SampledFrom(ids).Draw(t, "n")
-			return model.Op{K: "regnode", N: id, NT: typeOf[id], Pol: rapid.IntRange(0, 3).Draw(t, "pol"), Dress: rapid.SampledFrom([]int{0, 0, 1, 2, 3}).Draw(t, "dress"), Reuse: rapid.IntRange(0, 3).Draw(t, "reuse") == 0,
-				Shape: rapid.SampledFrom([]int{0, 0, 1, 2, 3, 4}).Draw(t, "shape")}
+			return model.Op{K: "regnode", N: id, NT: typeOf[id], Pol: rapid.IntRange(0, 3).Draw(t, "pol"), Dress: rapid.SampledFrom([]int{0, 0, 1, 2, 3, 4}).Draw(t, "dress"), Reuse: rapid.IntRange(0, 3).Draw(t, "reuse") == 0,
+				Shape: rapid.SampledFrom([]int{0, 0, 1, 2, 3, 4, 5}).Draw(t, "shape"), CloseErr: rapid.IntRange(0, 3).Draw(t, "closeErr") == 0, CloseKind: rapid.IntRange(0, 2).Draw(t, "closeKind")}
 		case 1:
 			f := rapid.SampledFrom([]string{"n", "m"}).Draw(t, "f")
 			pids := []string{f, "s"}
@@ -122,13 +122,13 @@ func TestC07Random(t *testing.T) {
 				pids = []string{f, f, "s"} // a node id may be listed more than once
 			}
 			return model.Op{K: "regpipe", ET: rapid.SampledFrom(ets).Draw(t, "et"), P: rapid.SampledFrom([]string{"p", "q"}).Draw(t, "p"),
-				IDs: pids, Pol: rapid.IntRange(0, 3).Draw(t, "ppol"), Dress: rapid.SampledFrom([]int{0, 0, 1, 2, 3}).Draw(t, "pdress")}
+				IDs: pids, Pol: rapid.IntRange(0, 3).Draw(t, "ppol"), Dress: rapid.SampledFrom([]int{0, 0, 1, 2, 3, 4}).Draw(t, "pdress")}
 		case 2:
 			return model.Op{K: "rmpipe", ET: rapid.SampledFrom(ets).Draw(t, "et"), P: rapid.SampledFrom([]string{"p", "q"}).Draw(t, "p")}
 		case 3:
-			return model.Op{K: "rpan", ET: rapid.SampledFrom(ets).Draw(t, "et"), P: rapid.SampledFrom([]string{"p", "q"}).Draw(t, "p")}
+			return model.Op{K: "rpan", ET: rapid.SampledFrom(ets).Draw(t, "et"), P: rapid.SampledFrom([]string{"p", "q"}).Draw(t, "p"), CtxDone: rapid.IntRange(0, 3).Draw(t, "ctxDone") == 0}
 		default:
-			return model.Op{K: "rmnode", N: rapid.SampledFrom(ids).Draw(t, "n")}
+			return model.Op{K: "rmnode", N: rapid.SampledFrom(ids).Draw(t, "n"), CtxDone: rapid.IntRange(0, 2).Draw(t, "ctxDone") == 0}
 		}
 	})
 	rapid.Check(t, func(t *rapid.T) {
